@@ -53,10 +53,16 @@ class InterestTreeNode:
             PendingIntEntry(future, param.lifetime,
                             param.can_be_prefix, param.must_be_fresh, implicit_sha256))
 
-    def nack_interest(self, nack_reason: int) -> bool:
+    def nack_interest(self, nack_reason: int, implicit_sha256: BinaryStr = b'') -> bool:
+        # Only the Interests whose full name (including the implicit digest) is nacked are affected
+        remaining = []
         for entry in self.pending_list:
-            entry.future.set_exception(InterestNack(nack_reason))
-        return True
+            if bytes(entry.implicit_sha256) == bytes(implicit_sha256):
+                entry.future.set_exception(InterestNack(nack_reason))
+            else:
+                remaining.append(entry)
+        self.pending_list = remaining
+        return not remaining
 
     def satisfy(self, data: DataTuple, is_prefix: bool) -> bool:
         unsatisfied_entries = []
